@@ -129,6 +129,13 @@ def run_histories(unit):
     try:
         for h in histories(maxlen, nconn):
             st.executions += 1
+            if st.executions % 300 == 0:
+                # a fresh world now and then (the in-memory network keeps every socket it ever made: replays got slower and slower)
+                if w.net.pump_errors:
+                    V("daemon-loop-error", "%r" % w.net.pump_errors[:2], [])
+                w.close()
+                gc.collect()
+                w = SyncWorld()
             reg = Registry()
             cls = make_class(mode, shape, creator, reg, server)
             d = w.daemon()
